@@ -25,11 +25,14 @@ func init() {
 			"(R2 terminator) the constant removeArtifacts searches for the end of the sequence occurs in the format after the marker, and the number of bytes it cuts beyond the found position equals that constant's length (a shorter cut leaves operator bytes behind, a longer one eats page content). " +
 			"(R3 resources) the operators by which removeArtifacts finds the resources to release (' gs', ' Do') are the operators the format applies to its two resource names, and the name prefixes it looks for and rebuilds ('/GS' → \"GS\"…, '/Fm' → \"Fm\"…) are the prefixes updatePageWatermarkResource is called with. " +
 			"(R4 siblings) for /Contents arrays the remover and the detector index the same set of positions, containing 0 and len-1 (where the writer puts watermarks and stamps). " +
+			"(R5) in removeArtifactsFromContentArray the call for the last element is not control-dependent on the found-result of the call for the first; (R6) in addPageWatermarkResources every successful return is preceded by an update of the page dictionary's Resources entry. " +
 			"NOT decided: that the page content after removal equals the original (value-level), watermarks of other producers, rotated pages, which content stream of a page is inspected, the form/ExtGState objects themselves.",
 		Rules: []string{
 			"C38.R1 TABLE: the readers' marker constants are substrings of the writer's format",
 			"C38.R2 TABLE: the end-of-sequence constant is in the format and the cut equals its length",
 			"C38.R3 TABLE: resource operators and name prefixes agree between writer and remover",
+			"C38.R5 independence: the remover inspects the last content stream whatever it found in the first",
+			"C38.R6 MPT: the writer leaves each watermarked page with a /Resources entry of its own (the remover requires one)",
 			"C38.R4 siblings: remover and detector inspect the same positions of a /Contents array, the first and the last among them",
 		},
 		Assumptions: []string{"watermark content is produced by wmContent's format constant only"},
@@ -88,6 +91,10 @@ func runC38(c *Ctx) {
 	r.MinInst["C38.R3"] = 4
 	r.MinInst["C38.R4"] = 1
 	checkC38Positions(c)
+	r.MinInst["C38.R5"] = 1
+	checkC38BothEnds(c)
+	r.MinInst["C38.R6"] = 1
+	checkC38PageResourcesWritten(c)
 	const marker = "/Artifact"
 	// ---- the writer's format
 	wfn := p.Func("pkg/pdfcpu.wmContent")
@@ -324,5 +331,132 @@ func checkC38Positions(c *Ctx) {
 		r.Bad("C38.R4", FuncID(rem), "positions inspected", p.Pos(rem.Pos()), fmt.Sprintf("the readers inspect {%s}; the writer puts a watermark into the first stream and a stamp into a stream appended at the end, so both index 0 and len-1 have to be looked at", strings.Join(a, ", ")))
 	default:
 		r.OK("C38.R4", FuncID(rem), "positions inspected", p.Pos(rem.Pos()), "remover and detector both inspect {"+strings.Join(a, ", ")+"}", true)
+	}
+}
+
+// R5: the remover looks at both ends of a /Contents array whatever it found at the first: the inspection of the last
+// element is not control-dependent on the first inspection's "found" result (a page can carry a watermark in its
+// first stream and a stamp in its last).
+func checkC38BothEnds(c *Ctx) {
+	p, r := c.P, c.R
+	const fid = "pkg/pdfcpu.removeArtifactsFromContentArray"
+	fn := p.Func(fid)
+	if fn == nil {
+		r.Bad("C38.R5", fid, "anchor", "", "UNRESOLVED-ANCHOR")
+		return
+	}
+	var calls []*ssa.Call
+	eachInstr(fn, func(_ *ssa.BasicBlock, _ int, i ssa.Instruction) {
+		if call, ok := i.(*ssa.Call); ok {
+			if f := staticCallee(call); f != nil && f.Name() == "removeArtifactsFromContentRef" {
+				calls = append(calls, call)
+			}
+		}
+	})
+	if len(calls) < 2 {
+		r.Bad("C38.R5", fid, "both ends inspected", p.Pos(fn.Pos()), fmt.Sprintf("UNDECIDED: %d calls of removeArtifactsFromContentRef, expected one for each end of the array", len(calls)))
+		return
+	}
+	first, last := calls[0], calls[len(calls)-1]
+	found := map[ssa.Value]bool{}
+	if first.Referrers() != nil {
+		for _, rf := range *first.Referrers() {
+			if ex, ok := rf.(*ssa.Extract); ok && ex.Index == 0 {
+				for v := range taintFrom(c, []ssa.Value{ex}) {
+					found[v] = true
+				}
+			}
+		}
+	}
+	dependent := false
+	for _, x := range fn.Blocks {
+		if len(x.Instrs) == 0 {
+			continue
+		}
+		ifi, ok := x.Instrs[len(x.Instrs)-1].(*ssa.If)
+		if !ok || !found[ifi.Cond] {
+			continue
+		}
+		for si := range x.Succs {
+			if edgeDominates(Edge{x, si}, last.Block()) {
+				dependent = true
+			}
+		}
+	}
+	if dependent {
+		r.Bad("C38.R5", fid, "both ends inspected", p.Pos(last.Pos()), "the last content stream is inspected only when the first one had no watermark: a page with a watermark (first stream) and a stamp (last stream) keeps the stamp after removal, which reports success")
+	} else {
+		r.OK("C38.R5", fid, "both ends inspected", p.Pos(last.Pos()), "the inspection of the last element does not depend on what the first inspection found", true)
+	}
+}
+
+// R6: the remover finds a page's watermark resources in the page's own /Resources entry
+// (locatePageContentAndResourceDict fails without one). The writer therefore leaves every page it watermarks with a
+// /Resources entry of its own: in addPageWatermarkResources every successful return is preceded by an update of the
+// key "Resources" in the page dictionary, directly or through insertPageResourcesForWM.
+func checkC38PageResourcesWritten(c *Ctx) {
+	p, r := c.P, c.R
+	const fid = "pkg/pdfcpu.addPageWatermarkResources"
+	fn := p.Func(fid)
+	if fn == nil {
+		r.Bad("C38.R6", fid, "anchor", "", "UNRESOLVED-ANCHOR")
+		return
+	}
+	writes := func(b *ssa.BasicBlock) bool {
+		for _, in := range b.Instrs {
+			switch x := in.(type) {
+			case *ssa.MapUpdate:
+				if k, ok := constString(x.Key); ok && k == "Resources" {
+					return true
+				}
+			case *ssa.Call:
+				callee := staticCallee(x)
+				if callee == nil {
+					continue
+				}
+				if callee.Name() == "insertPageResourcesForWM" {
+					return true
+				}
+				if callee.Name() == "Update" || callee.Name() == "Insert" || callee.Name() == "InsertName" {
+					for _, a := range x.Call.Args {
+						if k, ok := constString(a); ok && k == "Resources" {
+							return true
+						}
+					}
+				}
+			}
+		}
+		return false
+	}
+	free := map[*ssa.BasicBlock]bool{fn.Blocks[0]: true}
+	work := []*ssa.BasicBlock{fn.Blocks[0]}
+	for len(work) > 0 {
+		b := work[len(work)-1]
+		work = work[:len(work)-1]
+		if writes(b) {
+			continue
+		}
+		for _, s := range b.Succs {
+			if !free[s] {
+				free[s] = true
+				work = append(work, s)
+			}
+		}
+	}
+	n := 0
+	for _, ret := range returnsOf(fn) {
+		if k, ok := returnErrKind(ret); ok && k == errNonNil {
+			continue
+		}
+		n++
+		construct := fmt.Sprintf("successful return#%d", n)
+		if free[ret.Block()] && !writes(ret.Block()) {
+			r.Bad("C38.R6", fid, construct, posOrFn(p, ret, fn), "a page can leave the watermark writer without a /Resources entry of its own (the inherited dictionary was updated in place): the remover looks the watermark's resources up in the page's own /Resources and fails with 'no resource dict found', so the watermark cannot be removed")
+		} else {
+			r.OK("C38.R6", fid, construct, posOrFn(p, ret, fn), "the page dictionary's Resources entry is written on every path to this return", true)
+		}
+	}
+	if n == 0 {
+		r.Bad("C38.R6", fid, "successful returns", p.Pos(fn.Pos()), "UNDECIDED")
 	}
 }
